@@ -332,7 +332,7 @@ fn check_gap(word: &String) -> CaseReport {
 }
 
 pub fn run_check(ctx: &Ctx) {
-    ctx.set_rule("all operator sequences over + - * / ^ up to the stated length x all binary tree shapes (Catalan), operands from fixed pools, each AST rendered in 32 ways (minimal / full / two redundant parenthesisations x 8 blank layouts incl. no blanks where allowed, double blanks, tabs, leading/trailing blanks; the random layouts spell the power operator `**` half of the time); plus `to`/round/floor/ceil variants (also with three-digit digits arguments), random deeper trees long flat expressions of 30-130 terms mixing calls and parenthesised groups, expressions nested 20-150 levels deep in parentheses and calls, expressions with one gap of 2^16 or more blanks, and for every accepted vocabulary word the gap between a number and its unit (none, one, several blanks, tabs); oracle = reference evaluation of the AST; non-trivial = operators of >=2 precedence levels, or a grouped right operand, or nested parentheses, or a non-canonical rendering; distinct by query text");
+    ctx.set_rule("all operator sequences over + - * / ^ up to the stated length x all binary tree shapes (Catalan), operands from fixed pools, each AST rendered in 32 ways (minimal / full / two redundant parenthesisations x 8 blank layouts incl. no blanks where allowed, double blanks, tabs, leading/trailing blanks; plus every other character the tool's lexer takes into a blank run (no-break space, thin space, ideographic space, line breaks, vertical tab …) in every position of a run; the random layouts spell the power operator `**` half of the time); plus `to`/round/floor/ceil variants (also with three-digit digits arguments), random deeper trees long flat expressions of 30-130 terms mixing calls and parenthesised groups, expressions nested 20-150 levels deep in parentheses and calls, expressions with one gap of 2^16 or more blanks, and for every accepted vocabulary word the gap between a number and its unit (none, one, several blanks, tabs); oracle = reference evaluation of the AST; non-trivial = operators of >=2 precedence levels, or a grouped right operand, or nested parentheses, or a non-canonical rendering; distinct by query text");
     ctx.assume("blank policy: + - and `to` always have a blank on both sides; no blank is omitted next to a unit or phrase (a blank next to * or / ends a unit expression in this grammar)");
     let corpus: Vec<(String, QCase)> = load_corpus("C06");
     let cases: Vec<QCase> = corpus.into_iter().map(|c| c.1).collect();
@@ -432,6 +432,53 @@ pub fn run_check(ctx: &Ctx) {
         }
         ctx.run_list("huge-blank-runs", &cases, |c| judge(shared_db(), c), |c| to_json(c));
     }
+    // kinds of blanks: every character the tool's own lexer takes into a blank run (one WHITESPACE token for
+    // space-X-space) is a blank; a query with such blanks in any position of a run — first, last, alone, doubled —
+    // must evaluate as it does with plain spaces
+    {
+        use anything::syntax::lexer::Lexer;
+        use anything::syntax::parser::Syntax;
+        let candidates = ['\u{a0}', '\u{2009}', '\u{3000}', '\u{b}', '\u{c}', '\n', '\r', '\u{2028}', '\u{2029}', '\u{85}', '\u{1680}', '\u{2003}', '\u{202f}', '\u{205f}', '\t'];
+        let kinds: Vec<char> = candidates
+            .iter()
+            .copied()
+            .filter(|x| {
+                let s = format!(" {} ", x);
+                let toks: Vec<_> = Lexer::new(&s).collect();
+                toks.len() == 1 && toks[0].kind == Syntax::WHITESPACE
+            })
+            .collect();
+        ctx.put("blank_kinds", json!(kinds.iter().map(|c| format!("U+{:04X}", *c as u32)).collect::<Vec<_>>()));
+        let bases = ["1 + 2 * 3", "( 1 + 2 ) ^ 2", "8 / 2 / 2", "2 ^ 3 ^ 2", "1 - 2 - 3", "2 * ( 3 + 4 ) - 5", "round( 2.567 , 2 ) + 1", "10 km to m", "3 m + 4 m", "50 % * 4", "floor( 1.5 ) * 2", " 7 ", "1 + 2 to 1", "6 m / 2 s", "( 1 + 2 ) ( 3 )", "2 ** 3 + 1", "1 / 0 + 1"];
+        let mut cases: Vec<(String, String)> = Vec::new();
+        for b in bases {
+            for x in &kinds {
+                for shape in 0..5 {
+                    let rep = match shape {
+                        0 => x.to_string(),
+                        1 => format!("{} ", x),
+                        2 => format!(" {}", x),
+                        3 => format!("{}{}", x, x),
+                        _ => format!(" {} ", x),
+                    };
+                    cases.push((b.to_string(), b.replace(' ', &rep)));
+                    // only one gap changed: the first, and the last
+                    if let Some(i) = b.find(' ') {
+                        cases.push((b.to_string(), format!("{}{}{}", &b[..i], rep, &b[i + 1..])));
+                    }
+                    if let Some(i) = b.rfind(' ') {
+                        cases.push((b.to_string(), format!("{}{}{}", &b[..i], rep, &b[i + 1..])));
+                    }
+                }
+            }
+        }
+        ctx.run_list(
+            "blank-kinds",
+            &cases,
+            |(base, q)| check_blank_kind(base, q),
+            |(base, q)| json!({"blank_kinds": {"base": base, "query": q}}),
+        );
+    }
     // the gap between a number and its unit: for every vocabulary word the tool accepts, `5w`, `5 w`, `5  w` and
     // `5<tab>w` — alone, in a product and in a sum — must be the same quantity (or all be refused)
     {
@@ -462,7 +509,33 @@ pub fn run_check(ctx: &Ctx) {
     let _ = fnv;
 }
 
+fn check_blank_kind(base: &str, q: &str) -> CaseReport {
+    let db = shared_db();
+    let show = |r: &Result<Vec<crate::tool::R>, String>| match r {
+        Ok(v) => v
+            .iter()
+            .map(|x| match x {
+                crate::tool::R::Ok(v) => format!("{} {:?}", v.value, v.unit),
+                crate::tool::R::Err { .. } => "error".to_string(),
+            })
+            .collect::<Vec<_>>()
+            .join(" ; "),
+        Err(p) => format!("panic: {}", p),
+    };
+    let (a, b) = (show(&crate::tool::run(db, base)), show(&crate::tool::run(db, q)));
+    if a == b {
+        CaseReport::pass(q, true, vec!["blank-kinds"])
+    } else {
+        CaseReport::fail(q, "kind-of-blank-matters", json!({"with_spaces": base, "result": a, "query": q, "its_result": b}))
+    }
+}
+
 pub fn replay(ctx: &Ctx, case: &Value) {
+    if let Some(k) = case.get("blank_kinds") {
+        let pair = (k["base"].as_str().unwrap_or("").to_string(), k["query"].as_str().unwrap_or("").to_string());
+        ctx.run_list("replay", &[pair], |(b, q)| check_blank_kind(b, q), |(b, q)| json!({"blank_kinds": {"base": b, "query": q}}));
+        return;
+    }
     if let Some(w) = case.get("gap_word").and_then(|v| v.as_str()) {
         ctx.run_list("replay", &[w.to_string()], check_gap, |w| json!({"gap_word": w}));
         return;
